@@ -50,9 +50,27 @@ def rule_a(ctx, fns):
         if f.short == "get_bin_for_det_pair" and f.body is not None and len(f.params) in (5, 6):
             binp, d1, r1, d2, r2 = (p["n"] for p in f.params[:5])
             t = f.params[5]["n"] if len(f.params) == 6 else None  # the generic geometry has no TOF index
-            ifs = [m for m in f.body.c if m.k == "IfStmt"]
+            allifs = [m for m in f.body.c if m.k == "IfStmt"]
+
+            def _flag_call(m):
+                c0 = m.c[0].strip()
+                return c0.is_call() and (c0.callee or "").endswith("get_view_tangential_pos_num_for_det_num_pair")
+
+            def _refusal(m):
+                # `if (cond) return Succeeded::no;` - a pair that is refused outright is not one of the two outcomes
+                if len(m.c) != 2:
+                    return False
+                th = m.c[1]
+                th = th.c[0] if th.k == "CompoundStmt" and len(th.c) == 1 else th
+                return th.k == "ReturnStmt" and bool(th.c) and key(th.c[0].strip()).endswith("Succeeded::no)") or (th.k == "ReturnStmt" and bool(th.c) and "Succeeded::no" in key(th.c[0].strip()))
+
+            ifs = [m for m in allifs if _flag_call(m)]
+            others = [m for m in allifs if not _flag_call(m)]
             ok = False
             det = "no if on the swap flag"
+            if others and not all(_refusal(m) for m in others):
+                ifs = []
+                det = "a top-level branch other than the swap-flag test does more than refuse the pair (return Succeeded::no)"
             if len(ifs) == 1 and len(ifs[0].c) == 3:
                 cond = ifs[0].c[0].strip()
                 is_flag = cond.is_call() and (cond.callee or "").endswith("get_view_tangential_pos_num_for_det_num_pair") and [key(a, True) for a in cond.call_args()][2:] == [d1, d2]
@@ -381,6 +399,37 @@ def rule_f_forward_map_division_exact(ctx, fns):
     return n
 
 
+def rule_g_no_entry_pairs_refused(ctx, fns):
+    """The detector-pair table has entries for pairs of DIFFERENT detector numbers only (the initialisation walks over the (view,
+    tangential position) of the sinograms; the look-up asserts det1 != det2, which a Release build drops).  A pair with the same detector
+    number in two rings is on no LOR of the sinograms: the pair -> bin map must refuse it before the table is read - must-fact
+    `det_num1 != det_num2` at the look-up (F71: such pairs were assigned to view 0, tangential position 0)."""
+    from engine.cfg import relations
+
+    RULE = "C01.g-pairs-without-table-entry-refused"
+    n = 0
+    for f in fns:
+        if f.short != "get_bin_for_det_pair" or f.body is None or len(f.params) not in (5, 6) or not f.cfg_raw:
+            continue
+        d1, d2 = "v%d" % f.params[1]["d"], "v%d" % f.params[3]["d"]
+        cfg = CFG(f)
+        looks = [c for c in f.calls() if (c.callee or "").endswith("get_view_tangential_pos_num_for_det_num_pair")]
+        if not looks:
+            ctx.unrec(f.qn, "C01.g: no look-up of the detector-pair table")
+            continue
+        bad = []
+        for c in looks:
+            at = c
+            while at is not None and at.i not in cfg.pos:
+                at = at.parent
+            rels = relations(cfg.facts_at(at)) if at is not None else set()
+            if not ((d1, "!=", d2) in rels or (d2, "!=", d1) in rels):
+                bad.append(c)
+        ctx.ob(RULE, f.qn, "same-detector-number", not bad, (bad or looks)[0].where(), "the detector-pair table is read only where det_num1 != det_num2 is known" if not bad else "the detector-pair table is read for det_num1 == det_num2 as well: it has no entry for such pairs (same position in the ring, different rings - on no LOR of the sinograms), so they are assigned to whatever the uninitialised entry says, a bin that does not list them")
+        n += 1
+    return n
+
+
 def run(ctx):
     ctx.explanation = (
         "Decides: (a) get_bin_for_det_pair (cylindrical and generic/blocks geometries) has exactly the two dual outcomes selected by the "
@@ -406,6 +455,8 @@ def run(ctx):
     ctx.require_count("C01.e-tables-from-fixed-inputs", 2)
     rule_f_forward_map_division_exact(ctx, fns)
     ctx.require_count("C01.f-forward-map-division-exact", 1)
+    rule_g_no_entry_pairs_refused(ctx, fns)
+    ctx.require_count("C01.g-pairs-without-table-entry-refused", 2)
     ctx.require_count("C01.a-swap-duality", 3)
     ctx.require_count("C01.b-initialise-before-read", 8)
     ctx.require_count("C01.c-tables-invalidated", 7)
